@@ -7,6 +7,7 @@ They are short *because* the model stores the fit domain; that the implementatio
 like this model (its value at a location is the model's value with its own coefficients and
 the FIT domain, whatever else is requested) is what the correspondence checks.
 -/
+import FDAModel.Generated.SmoothFormulas
 import FDAProofs.Lemmas.Predict
 import FDAProofs.Lemmas.PredictBSpline
 import FDAProofs.Lemmas.LocalPoly
@@ -351,6 +352,47 @@ theorem lp_at_sampling_points (k : CKernel) (h : ℚ) (d n : ℕ) (x y : ℕ →
     (hj : Q[j]? = some (x i)) :
     (lpPredict1 k h d n x y Q)[j]? = some (lpEstimate1 k h d n x y (x i)) := by
   rw [lp_value_at_location, hj]; rfl
+
+/-! ### Tie of the code path to the current source (translator `harness/smooth_translate.py`, regenerated on every run) -/
+
+section SourceTie
+open FDA.NpLP FDA.Generated.Smooth
+set_option linter.unusedSimpArgs false
+set_option linter.unusedTactic false
+set_option linter.unreachableTactic false
+/-- **The request-independence logic as the source has it.**  Whether `IrregularFunctionalData.mean` uses its large-sample
+approximation depends on `approx` and on the number of pooled observations only — NOT on the number of requested points
+(the generated switch takes that number as an argument; the theorem says it ignores it); the pooled observations are
+grouped by their coordinates; `points=None` stands for the data's own sampling points in every entry point. -/
+theorem request_logic_src_eq_model :
+    (∀ approx nPooled nRequested, approxSwitchSrc approx nPooled nRequested = approxSwitch approx nPooled) ∧
+    approxGroupedBySrc = "coordinates" ∧ pointsDefaultSrc = pointsDefault := by
+  refine ⟨?_, by decide, by decide⟩
+  intro a n r
+  cases a <;> simp [approxSwitchSrc, approxSwitch] <;> omega
+
+/-- **The symmetrisation of the covariance as the source has it** is the one `covAt` applies: entry `(i, j)` is
+`symmetriseSrc` of the surface at `(p_i, p_j)` and at `(p_j, p_i)`. -/
+theorem symmetrise_src_eq_model (f : Fit2) (P : List ℚ) (i j : ℕ) (hi : i < P.length) (hj : j < P.length) :
+    (∀ c ct, symmetriseSrc c ct = symmetrise c ct) ∧
+    ((covAt f P).getD i []).getD j 0 =
+      symmetriseSrc (evalSpline2 f (P.getD i 0) (P.getD j 0)) (evalSpline2 f (P.getD j 0) (P.getD i 0)) := by
+  have h : ∀ c ct, symmetriseSrc c ct = symmetrise c ct := by
+    intro c ct
+    simp only [symmetriseSrc, symmetrise] <;> first | rfl | ring1 | (field_simp; ring1)
+  refine ⟨h, ?_⟩
+  rw [cov_entry f P i j hi hj, h]; rfl
+
+/-- **`PSplines.predict` (1-D) as the source has it**: coefficients contracted with the basis values at the location,
+the basis laid on the domain stored by `fit`. -/
+theorem ps_predict_src_eq_model (f : Fit1) (q : ℚ) :
+    evalSpline f q = psPredict1Src (nFun f.nseg f.deg) f.beta (fun j => bspline f.dmin f.dmax f.nseg f.deg j q) ∧
+    psPredictUsesStoredDomainSrc = true := by
+  refine ⟨?_, rfl⟩
+  simp only [evalSpline, psPredict1Src, dotVV] <;>
+    first | rfl | (apply Finset.sum_congr rfl; intro _ _; ring1)
+
+end SourceTie
 
 /-! ### Non-vacuity -/
 
